@@ -575,6 +575,11 @@ def mon_c08(t):
             continue
         if t.api[k] != t.api[k - 1]:
             bad.append({"step": k, "clause": "processing a node that has pod CIDRs changed the cluster", "detail": t.ops[k], "cls": "resync-changes-api"})
+        # ... nor is anything else written: no PATCH, no ClusterCIDR write, no Event object
+        for e in t.fx[k]:
+            if e["kind"] in ("patch", "ev", "updcc", "createcc"):
+                bad.append({"step": k, "clause": "processing a node that has pod CIDRs wrote to the cluster",
+                            "detail": "%s: %s" % (t.ops[k], {x: e[x] for x in e if x in ("kind", "node", "obj", "code", "name", "raw")}), "cls": "resync-writes-" + e["kind"]})
         # nothing beyond the node's own CIDRs gets reserved
         before = {(en["sel"], en["idx"], fam): set(en[fam]["keys"]) for en in (t.snap[k - 1] or []) for fam in ("v4", "v6") if en[fam]}
         for en in t.snap[k] or []:
